@@ -838,6 +838,10 @@ impl Exec {
       self.abort_self(st);
     }
     Self::note_site(&mut st, me, "cv-wait", format!("C{} L{}", cv, mutex), site);
+    // scheduling point before the wait (the mutex is still held): whatever the waiter checked
+    // outside this mutex may change, and a notify may be issued, before it is registered
+    st.tasks[me].wait = Wait::Runnable;
+    st = self.reschedule(st, me, false).unwrap();
     if st.locks[mutex].writer.map_or(false, |(t, _)| t == me) {
       st.locks[mutex].writer = None;
     }
@@ -858,6 +862,9 @@ impl Exec {
       self.abort_self(st);
     }
     Self::note_site(&mut st, me, if all { "notify-all" } else { "notify-one" }, format!("C{}", cv), site);
+    // scheduling point before the notify
+    st.tasks[me].wait = Wait::Runnable;
+    st = self.reschedule(st, me, false).unwrap();
     let waiters = st.cvs[cv].waiters.clone();
     if !waiters.is_empty() {
       if all {
@@ -870,8 +877,6 @@ impl Exec {
         Self::wake_cv_waiter(&mut st, waiters[c]);
       }
     }
-    st.tasks[me].wait = Wait::Runnable;
-    let _ = self.reschedule(st, me, false);
   }
 
   pub(crate) fn sleep(&self, me: TaskId, dur_ns: u64, site: &'static Location<'static>) {
